@@ -7,8 +7,9 @@ What is decided here:
 * `validated_before_use` — over the table regenerated from `internal/config` on every run: every constructor call
   whose error is dropped after the configuration was accepted (`x, _ := f(field)`, `Must*(field)`) has a call of the
   same constructor family on the same field of the same settings type inside a `validate` method with the error
-  returned — with one listed exception that cannot crash (`Match.KeepFiringFor`: the zero value of the dropped result
-  is a duration match that is simply evaluated).
+  returned, *compiling the same pattern text* (for regexps the extractor follows helpers such as `fullMatchRegex` down to
+  the string handed to `regexp.Compile`; see `sameValidity`). The list of exceptions is empty since `Match.KeepFiringFor`
+  is validated too.
 * `dropped_error_is_safe` — why that is enough for pure constructors: a constructor is a function of its argument,
   so if validation saw `ok v`, the later call with the error dropped yields the same `v`.
 * `mustExpand_total` — the one constructor that also depends on the rule (`TemplatedRegexp.Expand`): after fix
@@ -21,11 +22,18 @@ configurations through `config.Load` and, when accepted, a full in-process lint 
 namespace Pint.Props.C18
 open Pint.Gen.ConfigUse
 
-def sameField (u v : Row) : Bool := v.typ == u.typ && v.field == u.field && v.fam == u.fam
+/-- the pattern text a use compiles against the one validation compiled (`$` = the configuration field): the same
+text, or the validated pattern between `^` and `$` WITHOUT a group — anchors alone neither close nor open anything, so
+they keep a valid pattern valid (assumption about Go's regexp syntax, listed in the trusted base). A group around the
+pattern is a different matter: `\Qabc` is valid, `^(?:\Qabc)$` is not (the crash fixed by 9b0be7b) -/
+def sameValidity (usePat validatedPat : String) : Bool :=
+  usePat == validatedPat || (validatedPat == "$" && usePat == "\"^\" + $ + \"$\"")
+
+def sameField (u v : Row) : Bool := v.typ == u.typ && v.field == u.field && v.fam == u.fam && sameValidity u.pat v.pat
 
 /-- dropped errors that no validate method covers, and why they cannot crash -/
 def exceptions : List (String × String × String) :=
-  [("Match", "KeepFiringFor", "durationMatch")]   -- IsMatch uses the zero durationMatch when parsing failed; no dereference
+  []   -- was: Match.KeepFiringFor (never validated, harmless zero value); validated since fix 87d8211
 
 def covered (u : Row) : Bool :=
   validates.any (sameField u) || exceptions.contains (u.typ, u.field, u.fam)
